@@ -34,10 +34,19 @@ def main():
                 matrix[sid] = {"status": "patch does not apply"}
                 print(sid, "PATCH DOES NOT APPLY", flush=True)
                 continue
+            mp = f"{VERIF}/seeded/{sid}/meta.json"
+            # a change written against one property may fall into the statement
+            # of another one (`check_with` in its meta.json): tried in turn
+            props = [prop]
+            if os.path.exists(mp):
+                props = json.load(open(mp)).get("check_with", props)
             sh(f"git apply {patch}", REPO)
             t0 = time.time()
             try:
-                r = sh(f"./check {prop} --tier quick", VERIF)
+                for prop in props:
+                    r = sh(f"./check {prop} --tier quick", VERIF)
+                    if any(l.startswith("VIOLATION") for l in r.stdout.splitlines()):
+                        break
             finally:
                 sh(f"git apply -R {patch}", REPO)
             viol = [l for l in r.stdout.splitlines() if l.startswith("VIOLATION")]
@@ -46,7 +55,6 @@ def main():
                        "no-failing-input-found" in l for l in viol),
                    "seconds": round(time.time() - t0)}
             matrix[sid] = res
-            mp = f"{VERIF}/seeded/{sid}/meta.json"
             if os.path.exists(mp):
                 m = json.load(open(mp))
                 m["caught_by"] = [prop] if res["violation"] and res["exit"] == 1 else []
